@@ -210,3 +210,81 @@ Definition before_b (a b : nat) (l : list nat) : bool :=
   | Some i, Some j => Nat.ltb i j
   | _, _ => false
   end.
+
+(* ---- a component with several configuration properties ---------------------------------- *)
+
+(* PostProcessProperties of ONE processor is handed ALL properties of the component and loops over
+   them; the first error ends the call - and the creation of the component.  The processors are
+   applied one after the other (ResolveAfterInstantiation), so a component's run is stage-major:
+   every property goes through stage k before any property goes through stage k+1.  The oracles
+   (evaluator, decoding into the field's Go type, validator verdict) belong to the property. *)
+Record cprop : Type := mkCProp {
+  cp_eval : bytes -> res cval;
+  cp_decode : cval -> res cval;
+  cp_verdict : option cval -> bool;
+  cp_state : pstate
+}.
+
+Inductive cres : Type := COk (ps : list cprop) | CErr (e : perr).
+
+Definition cp_with (p : cprop) (st : pstate) : cprop :=
+  mkCProp (cp_eval p) (cp_decode p) (cp_verdict p) st.
+
+Section Component.
+  Variable fx : bool.
+  Variable cfg : bytes -> cval.
+  Variable budget : option nat.
+
+  Definition cp_stage (id : nat) (p : cprop) : pres :=
+    stage_fun fx cfg budget (cp_eval p) (cp_decode p) (cp_verdict p) id (cp_state p).
+
+  (* the loop of one processor over the component's properties *)
+  Fixpoint stage_all (id : nat) (ps : list cprop) : cres :=
+    match ps with
+    | [] => COk []
+    | p :: r =>
+      match cp_stage id p with
+      | PErr e => CErr e
+      | POk st => match stage_all id r with
+                  | COk r' => COk (cp_with p st :: r')
+                  | CErr e => CErr e
+                  end
+      end
+    end.
+
+  Fixpoint run_component (order : list nat) (ps : list cprop) : cres :=
+    match order with
+    | [] => COk ps
+    | id :: rest =>
+      match stage_all id ps with
+      | COk ps' => run_component rest ps'
+      | CErr e => CErr e
+      end
+    end.
+End Component.
+
+(* does the validate stage reject this property? *)
+Definition cp_violates (p : cprop) : bool :=
+  match ps_kind (cp_state p) with
+  | TOther => false
+  | _ => ps_validate (cp_state p) && negb (cp_verdict p (ps_field (cp_state p)))
+  end.
+
+(* ---- which processors are active when a component is created ---------------------------- *)
+
+(* InvokeBeanFactoryPostProcessors walks the sorted sequence; every processor that is not lazy is
+   CREATED as a component at that moment (GetComponentByName) and only then appended to the active
+   list.  A component that is itself an eager post processor - participant [id_holder] of the
+   facts - is therefore populated by the processors sorted BEFORE it only; every other component is
+   created later (Refresh, or as a dependency of a component created by Refresh) with the whole
+   sequence active. *)
+Definition id_holder : nat := 30.
+
+Fixpoint before_id (k : nat) (l : list nat) : list nat :=
+  match l with
+  | [] => []
+  | x :: r => if Nat.eqb x k then [] else x :: before_id k r
+  end.
+
+Definition active_order (facts : list participant) : list nat :=
+  before_id id_holder (stage_order facts).
